@@ -225,6 +225,50 @@ def whole_run(kind, cap, mode, seed, noisy, minb=2, bug=False, thr=None):
         return run_analog(cap, mode, seed, order=2 if bug else 1 + seed % 2, noisy=noisy, minb=minb, bug=bug, thr=thr)
 
 
+def jump_oracle(args):
+    """A forced jump of an adjacent two-site process whose operator is NOT a product of one-site operators (custom matrix) on a chain
+    whose bonds already sit at the cap: after dissipation + jump (+ the routine's own renormalisation) no bond may exceed the cap."""
+    import copy
+
+    from mqt.yaqs.core.data_structures.networks import MPS
+    from mqt.yaqs.core.data_structures.noise_model import NoiseModel
+    from mqt.yaqs.core.data_structures.simulation_parameters import AnalogSimParams, Observable
+    from mqt.yaqs.core.methods.dissipation import apply_dissipation
+    from mqt.yaqs.core.methods.stochastic_process import stochastic_process
+
+    from drivers import lottery
+
+    rng = np.random.default_rng(args["seed"])
+    L, cap, site = args["L"], args["cap"], args["site"]
+    dims = [1] + [min(cap, 2 ** min(i + 1, L - 1 - i)) for i in range(L - 1)] + [1]
+    mps = MPS(L, tensors=[rng.normal(size=(2, dims[i], dims[i + 1])) + 1j * rng.normal(size=(2, dims[i], dims[i + 1])) for i in range(L)],
+              physical_dimensions=[2] * L)
+    mps.normalize("B")
+    sp, sm = np.array([[0, 1], [0, 0]], dtype=complex), np.array([[0, 0], [1, 0]], dtype=complex)
+    if args["op"] == "exchange":
+        mat = np.kron(sp, sm) + np.kron(sm, sp)
+    else:
+        mat = rng.normal(size=(4, 4)) + 1j * rng.normal(size=(4, 4))
+    nm = NoiseModel([{"name": "pair", "sites": [site, site + 1], "strength": 0.5, "matrix": mat}])
+    par = AnalogSimParams([Observable("z", 0)], elapsed_time=0.1, dt=0.1, max_bond_dim=cap, min_bond_dim=args.get("minb", 2), trunc_mode=args["mode"],
+                          threshold=1e-9 if args["mode"] == "discarded_weight" else 1e-6, show_progress=False)
+    before = bonds_of(mps)
+    st = copy.deepcopy(mps)
+    try:
+        apply_dissipation(st, nm, 0.1, par)
+        out = stochastic_process(st, nm, 0.1, par, rng=lottery.ForcedRng(["J", 0]))
+    except lottery.Pruned:
+        return None
+    except Exception as e:  # noqa: BLE001
+        return f"stochastic_process raised {type(e).__name__}: {e}"
+    after = bonds_of(out)
+    bound = max(cap, args.get("minb", 2), max(before))
+    if max(after) > bound:
+        return (f"a jump of a non-product two-site process on sites ({site},{site + 1}) took the bonds from {before} to {after} with max_bond_dim={cap} "
+                f"(trunc_mode={args['mode']}, operator {args['op']})")
+    return None
+
+
 def search(ctx):
     plan = []
     caps = [1, 2, 3] if ctx.quick else [1, 2, 3, 4, 5, 6]
@@ -243,6 +287,15 @@ def search(ctx):
              ("analog", 3, "discarded_weight", True, 0.0), ("digital", 3, "discarded_weight", True, 0.0), ("analog", 4, "relative", True, 0.0)]
     # product-state bonds with max_bond_dim = min_bond_dim = 1: the SVD-based centre shifts must not pad them
     ones = [("analog", 1, "relative", True), ("digital", 1, "discarded_weight", True), ("analog", 1, "discarded_weight", False)]
+    for k in range(ctx.scale(12, 120)):
+        L = int(ctx.rng.integers(4, 7))
+        a = dict(seed=int(ctx.rng.integers(0, 2**31)), L=L, cap=int(ctx.rng.choice([2, 3, 4])), site=int(ctx.rng.integers(0, L - 1)),
+                 mode=["discarded_weight", "relative"][k % 2], op=["exchange", "random"][(k // 2) % 2])
+        why = jump_oracle(a)
+        ctx.case(nontrivial_key=("jump", a["seed"]))
+        ctx.count("forced_pair_jumps")
+        if why:
+            ctx.violation("jump-cap", why, {"oracle": "jump", "args": a})
     reps = 1 if ctx.quick else 3
     for rep in range(reps):
         for item in plan + [o + (None, 1) for o in ones]:
@@ -280,6 +333,8 @@ def replay(ctx, data):
     if rp.get("oracle") == "truncate":
         calls, bonds, _ = truncate_trace(rp["L"], rp["chi"], rp["center"], rp["thr"], rp["cap"], 1)
         return f"bonds {bonds}" if bonds and max(bonds) > rp["cap"] else None
+    if rp.get("oracle") == "jump":
+        return jump_oracle(rp["args"])
     if rp.get("oracle") == "whole_run":
         w = whole_run(rp["kind"], rp["cap"], rp["mode"], rp["seed"], rp["noisy"], rp.get("minb", 2), bug=rp.get("bug", False), thr=rp.get("thr"))
         b = max(rp["cap"], rp.get("minb", 2))
